@@ -96,6 +96,7 @@ pub struct Ctx {
     pub crossings_after_ack: u64,
     pub modifies: u64,
     pub nacks: u64,
+    pub stream_acks: u64,
 }
 
 fn leases_sorted(seq: &Seq, sub: &str) -> Vec<(String, Lease)> {
@@ -136,6 +137,25 @@ pub async fn apply(seq: &mut Seq, c: &mut Ctx, letter: &str, sub: &str) {
                 None => {
                     seq.ack(sub, &["424242".to_string()]).await;
                     c.odd_acks += 1;
+                }
+            }
+        }
+        "stream_ack_oldest" => {
+            // the oldest lease is acknowledged over a StreamingPull stream of the subscription
+            // (opened now if there is none yet; it is a consumer like any other from then on)
+            if !seq.streams.contains_key(sub) {
+                seq.open_stream(sub, 2).await;
+            }
+            let ls = leases_sorted(seq, sub);
+            if let Some((id, l)) = ls.first() {
+                let certain = seq.now() < l.lo;
+                let id = id.clone();
+                if seq.stream_ack(sub, &[id.clone()]).await {
+                    c.last_acked = Some(id);
+                    if certain {
+                        c.effective_acks += 1;
+                    }
+                    c.stream_acks += 1;
                 }
             }
         }
@@ -325,6 +345,7 @@ async fn episode(p: &EpParams) -> EpReport {
         crossings_after_ack: 0,
         modifies: 0,
         nacks: 0,
+        stream_acks: 0,
     };
     seq.create_topic(&c.t.clone()).await;
     seq.create_sub(&c.s1.clone(), &c.t.clone(), 10).await;
@@ -347,7 +368,7 @@ async fn episode(p: &EpParams) -> EpReport {
         let n = rng.range(40, 80);
         let ext = [
             "ack_dead_then_live", "ack_oldest_at_the_wire", "ack_dup_to_count", "ack_dead_to_count", "publish", "publish3", "pull1", "pullall", "ack_oldest", "ack_newest", "ack_stale", "ack_unknown", "ack_again", "nack_oldest", "modify_oldest_30", "modify_newest_3", "modify_oldest_700",
-            "adv_before", "adv_past", "pull1", "ack_oldest", "publish",
+            "adv_before", "adv_past", "pull1", "ack_oldest", "publish", "stream_ack_oldest", "stream_ack_oldest",
         ];
         let mut ls = Vec::new();
         for _ in 0..n {
@@ -362,6 +383,7 @@ async fn episode(p: &EpParams) -> EpReport {
     seq.flush(&mut rep);
     rep.nontrivial = (c.effective_acks > 0 && c.crossings_after_ack > 0) || c.odd_acks > 0;
     rep.add("effective_acks", c.effective_acks);
+    rep.add("acks_sent_over_a_stream", c.stream_acks);
     rep.add("stale_unknown_repeated_acks", c.odd_acks);
     rep.add("deadline_crossings_after_ack", c.crossings_after_ack);
     rep.key = letters.join(",");
